@@ -126,9 +126,9 @@ type c44World struct {
 	noteSeq   uint64
 	poolRound basics.Round // round of the evaluator the pool must be working on
 	mult      uint64       // fee threshold multiplier (model of the documented OnNewBlock rule)
-	certain   bool         // the model of mult / pending whole blocks is exact (see notes: "quirk")
-	quirk     bool         // since the last recompute a group hit ErrNoSpace and then failed: the pool's byte/block counters are history dependent
-	curB      int          // pending whole blocks according to the latest invariant replay
+	certain   bool         // the shadow has never been seen to disagree with the pool's counters
+	quirk     bool         // since the last recompute a group hit ErrNoSpace, bumped the block counter and was refused all the same: completeness is not asserted in that region
+	shadow    *c44Replay   // lock-step shadow of the pool's pending evaluator: same attempts in the same order (completeness only)
 
 	// statistics for the non-trivial rule
 	nAccepted, nRejected, nDroppedConflict, nDroppedCommitted, nCongested int
@@ -147,7 +147,7 @@ func (w *c44World) tail() string {
 
 func c44NewWorld(tb testing.TB, t *rapid.T, vk *vkCtx, cvs []protocol.ConsensusVersion) *c44World {
 	w := &c44World{tb: tb, vk: vk, committed: map[transactions.Txid]basics.Round{}, certain: true}
-	w.cv = cvs[rapid.SampledFrom([]int{0, 0, 1, 2}).Draw(t, "proto")]
+	w.cv = cvs[rapid.SampledFrom([]int{0, 1, 1, 2, 3}).Draw(t, "proto")]
 	w.proto = config.Consensus[w.cv]
 
 	accts := map[basics.Address]basics.AccountData{}
@@ -178,6 +178,9 @@ func c44NewWorld(tb testing.TB, t *rapid.T, vk *vkCtx, cvs []protocol.ConsensusV
 	}
 	w.cfg = config.GetDefaultLocal()
 	w.cfg.TxPoolSize = rapid.IntRange(8, 32).Draw(t, "TxPoolSize")
+	// "should always be 2 in production" (config doc), but it is a configuration knob; 4 makes the threshold bite with
+	// the few pending blocks a pool of <= 32 transactions can hold
+	w.cfg.TxPoolExponentialIncreaseFactor = rapid.SampledFrom([]uint64{2, 2, 4}).Draw(t, "expFactor")
 	w.cfg.VerifiedTranscationsCacheSize = 64
 	w.cfg.DisableLedgerLRUCache = true // the LRU buffers cost ~60 MB and 0.4 s per open; not a subject here
 	w.cfg.MaxAcctLookback = uint64(rapid.IntRange(1, 6).Draw(t, "MaxAcctLookback"))
@@ -201,7 +204,7 @@ func c44NewWorld(tb testing.TB, t *rapid.T, vk *vkCtx, cvs []protocol.ConsensusV
 		os.RemoveAll(w.dir)
 		t.Fatalf("ENGINE: OpenLedger: %v", err)
 	}
-	w.tracef("world proto=%s maxBytes=%d TxPoolSize=%d", w.cv, w.proto.MaxTxnBytesPerBlock, w.cfg.TxPoolSize)
+	w.tracef("world proto=%s maxBytes=%d TxPoolSize=%d factor=%d", w.cv, w.proto.MaxTxnBytesPerBlock, w.cfg.TxPoolSize, w.cfg.TxPoolExponentialIncreaseFactor)
 
 	// two set-up blocks: an asset, holders
 	hdr := func() transactions.Header {
@@ -234,6 +237,7 @@ func c44NewWorld(tb testing.TB, t *rapid.T, vk *vkCtx, cvs []protocol.ConsensusV
 
 	w.pool = MakeTransactionPool(w.l, w.cfg, c44Logger(), nil)
 	w.poolRound = w.l.Latest() + 1
+	w.shadow = w.newReplay(t)
 	return w
 }
 
@@ -501,11 +505,10 @@ func (w *c44World) invariant(t *rapid.T) {
 				gi, c44GroupStr(g), rep.round, err, w.tail())
 		}
 	}
-	w.curB = rep.blocks
 	if rep.blocks > 0 {
 		w.vk.Label("state:congested")
 	}
-	// is the model of the pool's counters still exact? (only gates the completeness direction, never a verdict)
+	// is the shadow of the pool's counters still exact? (only gates the completeness direction, never a verdict)
 	w.pool.mu.Lock()
 	pb, pm := int(w.pool.numPendingWholeBlocks), w.pool.feeThresholdMultiplier
 	var pr basics.Round
@@ -516,9 +519,9 @@ func (w *c44World) invariant(t *rapid.T) {
 	if pr != w.l.Latest()+1 {
 		t.Fatalf("C44 after a completed step the pool works on round %d, ledger latest is %d\n  %s", pr, w.l.Latest(), w.tail())
 	}
-	if w.certain && !w.quirk && (pb != rep.blocks || pm != w.mult) {
+	if w.certain && (pb != w.shadow.blocks || pm != w.mult) {
 		w.vk.Label("model-desync")
-		w.tracef("model-desync blocks pool=%d model=%d mult pool=%d model=%d", pb, rep.blocks, pm, w.mult)
+		w.tracef("model-desync blocks pool=%d model=%d mult pool=%d model=%d", pb, w.shadow.blocks, pm, w.mult)
 		w.certain = false
 	}
 }
@@ -545,8 +548,8 @@ func (w *c44World) remember(t *rapid.T, g c44Group, class string) {
 			t.Fatalf("C44 pending group %d (%s) not applicable before Remember: %v\n  %s", gi, c44GroupStr(pg), err, w.tail())
 		}
 	}
-	b0 := rep.blocks
 	sizeOK := beforeIDs+len(g) <= w.cfg.TxPoolSize
+	b0 := w.shadow.blocks
 	fpb := w.feePerByte(b0)
 	feeOK := true
 	for _, tx := range g {
@@ -554,20 +557,33 @@ func (w *c44World) remember(t *rapid.T, g c44Group, class string) {
 			feeOK = false
 		}
 	}
-	evalErr, noSpace := rep.try(g, false)
-	mlv := c44MinLastValid(g)
-	rule1 := mlv >= rep.round+basics.Round(b0)
-	rule2 := !noSpace || mlv >= rep.round+basics.Round(b0+1)
-	expect := sizeOK && feeOK && rule1 && rule2 && evalErr == nil
+	// primary oracle: the fresh evaluator, pure ledger semantics
+	evalErr, _ := rep.try(g, false)
+	// secondary (completeness): the lock-step shadow of the pool's evaluator, fed exactly what the documented flow
+	// feeds it: nothing when the size or fee check refuses first
+	expect := false
+	if w.certain && sizeOK && feeOK {
+		shadowErr, _ := w.shadow.try(g, true)
+		w.infra(t, shadowErr)
+		expect = shadowErr == nil
+		if w.shadow.quirk && !w.quirk {
+			w.quirk = true // block counter bumped although the group was refused
+			w.vk.Label("quirk:nospace-then-rejected")
+		}
+	}
 
 	err := w.pool.Remember(g)
 	w.infra(t, evalErr)
 	w.infra(t, err)
 
 	w.known = append(w.known, g)
-	w.tracef("Remember %s %s -> %s (oracle eval=%s size=%v fee=%v fpb=%d blocks=%d)", class, c44GroupStr(g), c44ErrClass(err), c44ErrClass(evalErr), sizeOK, feeOK, fpb, b0)
+	w.tracef("Remember %s %s -> %s (oracle eval=%s size=%v fee=%v fpb=%d blocks=%d expect=%v)", class, c44GroupStr(g), c44ErrClass(err), c44ErrClass(evalErr), sizeOK, feeOK, fpb, b0, expect)
 	w.vk.Label("remember:" + class + ":" + c44ErrClass(err))
 	w.vk.Labelf("group-size=%d", len(g))
+	var thrErr *ErrTxPoolFeeError
+	if errors.As(err, &thrErr) {
+		w.vk.Label("remember:refused-by-congestion-threshold")
+	}
 
 	after := w.pool.PendingTxGroups()
 	if err == nil {
@@ -587,21 +603,22 @@ func (w *c44World) remember(t *rapid.T, g c44Group, class string) {
 			t.Fatalf("C44 a rejected Remember changed the pending list\n  %s", w.tail())
 		}
 	}
-	// the pool's counters after this call
-	if sizeOK && feeOK && rule1 && noSpace && (!rule2 || evalErr != nil) {
-		w.quirk = true // block counter bumped although the group was refused
-		w.vk.Label("quirk:nospace-then-rejected")
-	}
-	if w.certain && !w.quirk {
-		switch {
-		case expect && err != nil:
-			t.Fatalf("C44 (completeness) Remember refused %s with %v; it fits (%d+%d<=%d), pays the threshold (%d/byte) and a fresh evaluator accepts it on top of the pending groups\n  %s",
-				c44GroupStr(g), err, beforeIDs, len(g), w.cfg.TxPoolSize, fpb, w.tail())
-		case !expect && err == nil:
-			t.Fatalf("C44 Remember admitted %s although fee-threshold ok=%v (%d/byte) / multi-block expiry ok=%v\n  %s", c44GroupStr(g), feeOK, fpb, rule1 && rule2, w.tail())
-		}
-		if !feeOK && sizeOK {
-			w.vk.Label("remember:below-fee-threshold")
+	if w.certain {
+		if !w.quirk {
+			switch {
+			case expect && err != nil:
+				t.Fatalf("C44 (completeness) Remember refused %s with %v; it fits (%d+%d<=%d), pays the threshold (%d/byte) and the evaluator accepts it on top of the pending groups\n  %s",
+					c44GroupStr(g), err, beforeIDs, len(g), w.cfg.TxPoolSize, fpb, w.tail())
+			case !expect && err == nil:
+				t.Fatalf("C44 Remember admitted %s although size ok=%v, fee-threshold ok=%v (%d/byte), multi-block expiry rule (blocks=%d)\n  %s", c44GroupStr(g), sizeOK, feeOK, fpb, b0, w.tail())
+			}
+			if !feeOK && sizeOK {
+				w.vk.Label("remember:below-fee-threshold")
+			}
+		} else if expect != (err == nil) {
+			// in the history-dependent region nothing is asserted; if the shadow and the pool part ways the shadow is useless
+			w.vk.Label("model-desync")
+			w.certain = false
 		}
 	}
 }
@@ -727,7 +744,7 @@ func (w *c44World) txn(t *rapid.T, kind string, si int) transactions.Transaction
 		tx.Fee.Raw = rapid.SampledFrom([]uint64{0, 1, w.proto.MinTxnFee - 1}).Draw(t, "feeLow")
 	case "thr":
 		// around the congestion threshold the model expects (exactly at it, one below, twice)
-		if fpb := w.feePerByte(w.curB); fpb > 0 {
+		if fpb := w.feePerByte(w.shadow.blocks); fpb > 0 {
 			probe := tx
 			probe.Fee.Raw = fpb * 260
 			l := uint64(w.sign(probe).GetEncodedLength())
@@ -743,7 +760,7 @@ func (w *c44World) txn(t *rapid.T, kind string, si int) transactions.Transaction
 	return tx
 }
 
-var c44Kinds = []string{"pay", "pay", "pay", "paybig", "paybig", "paynew", "close", "lease", "lease", "rekey", "axfer", "axfer", "optin", "acfg"}
+var c44Kinds = []string{"pay", "pay", "pay", "paybig", "paybig", "paynew", "close", "lease", "lease", "lease", "rekey", "axfer", "axfer", "optin", "acfg"}
 
 // group draws a group of 1-4 transactions and signs it.
 func (w *c44World) group(t *rapid.T) (c44Group, string) {
@@ -796,12 +813,13 @@ func (w *c44World) actRemember(t *rapid.T) {
 		return
 	}
 	g, kinds := w.group(t)
-	_ = kinds
 	cls := "single"
 	if len(g) > 1 {
 		cls = "group"
 	}
-	w.vk.Label("kinds:" + kinds)
+	for _, k := range strings.Split(kinds, "+") {
+		w.vk.Label("kind:" + k)
+	}
 	w.remember(t, g, cls)
 }
 
@@ -857,7 +875,7 @@ func (w *c44World) foreign(t *rapid.T, pending []c44Group) (c44Group, string) {
 			si = i
 		}
 	}
-	kind := rapid.SampledFrom([]string{"drain", "drain", "close", "lease", "rekey", "assetdrain", "plain"}).Draw(t, "fkind")
+	kind := rapid.SampledFrom([]string{"drain", "drain", "close", "lease", "lease", "rekey", "assetdrain", "plain"}).Draw(t, "fkind")
 	tx := base(sender)
 	switch kind {
 	case "drain":
@@ -906,16 +924,10 @@ func (w *c44World) notify(t *rapid.T, blk bookkeeping.Block, delta ledgercore.St
 		return
 	}
 	// documented threshold rule, from the number of whole blocks that were pending
-	if w.quirk {
-		if w.certain {
-			w.vk.Label("model-uncertain-after-quirk")
-		}
-		w.certain = false
-	}
 	switch {
-	case w.curB == 0:
+	case w.shadow.blocks == 0:
 		w.mult /= w.cfg.TxPoolExponentialIncreaseFactor
-	case w.curB == 1:
+	case w.shadow.blocks == 1:
 	default:
 		if w.mult == 0 {
 			w.mult = 1
@@ -951,6 +963,10 @@ func (w *c44World) notify(t *rapid.T, blk bookkeeping.Block, delta ledgercore.St
 		dropped[c]++
 	}
 	w.quirk = rep.quirk
+	w.shadow = rep // from now on the shadow of the pool's new evaluator
+	if rep.quirk {
+		w.vk.Label("quirk:nospace-then-rejected-in-recompute")
+	}
 	for c, n := range dropped {
 		for i := 0; i < n; i++ {
 			w.vk.Label("dropped:" + c)
@@ -1130,7 +1146,7 @@ func (w *c44World) actAssemble(t *rapid.T) {
 
 func TestVerif_C44_Machine(t *testing.T) {
 	vk := vkBegin(t, "C44")
-	vk.Rule("rapid state machine over a real in-memory Ledger and TransactionPool (TxPoolSize 8-32, block size 1800 B / 5000 B / 5 MB): " +
+	vk.Rule("rapid state machine over a real in-memory Ledger and TransactionPool (TxPoolSize 8-32, block size 1200 B / 1800 B / 5000 B / 5 MB, threshold factor 2 or 4): " +
 		"Remember of really signed groups of 1-4 (pay, spend-most, pay-new-account, close, lease, rekey, asset transfer/opt-in/create; " +
 		"validity windows normal/one-round/expired/future/max; fees min/high/low/at the congestion threshold; resubmissions of pending, " +
 		"rejected and committed groups), bursts, blocks committing a drawn subset of the pending groups and foreign conflicting " +
@@ -1140,6 +1156,7 @@ func TestVerif_C44_Machine(t *testing.T) {
 	vk.Assume("ledger.StartEvaluator/TransactionGroup (the fresh-evaluator oracle) and Ledger.Validate are trusted here; they are the subject of C18-C24")
 	c44Init()
 	cvs := []protocol.ConsensusVersion{
+		c44RegisterProto(t, "c44-b1200", 1200),
 		c44RegisterProto(t, "c44-b1800", 1800),
 		c44RegisterProto(t, "c44-b5000", 5000),
 		protocol.ConsensusCurrentVersion,
